@@ -13,9 +13,9 @@ class C03(Prop):
                   "produces exactly doc_toks d, the parser builds exactly tree_of d with no error, printing gives back render d, items() of every "
                   "paragraph equal content d (names in file order, duplicates kept, values = lines joined by LF without indentation and colon "
                   "whitespace); get/get_all/keys/contains_key are the list lookups on items() for every tree; Paragraph::from_str returns the first "
-                  "paragraph. PARTIAL: the rejection clause (a bad line makes the strict reader fail) is stated (C03_reject_full) but not proved; it is "
-                  "decided on every run by the deb822-reject stream (a bad line inserted at every line boundary of generated documents: model and "
-                  "implementation must both reject).")
+                  "paragraph; C03_reject: a line that is not a field, continuation, comment or blank line, inserted at any line boundary of ANY text, "
+                  "makes the strict reader return Err (lexer line-locality + a parser invariant: a bad token pattern at a line start is either "
+                  "reported or still ahead). The deb822-reject stream replays the clause on the implementation.")
     level_note = "Model: src/lex.rs, src/common.rs, fn parse and the accessors of src/lossless.rs; specification: coq/model/Grammar.v (render, wf_doc, content)."
     rule = ("deb822-doc: random inhabitants of Grammar.doc (all layout knobs; text rendered by the generator and re-rendered by the extracted "
             "Grammar.render, wf checked by the extracted wf_doc), implementation compared with content/spec lookups; deb822-reject: a bad line "
